@@ -642,7 +642,12 @@ func genSingle(r *lib.Rand) Case {
 	return c
 }
 
-func runCase(c Case, res *lib.Result) string {
+func runCase(c Case, res *lib.Result) (ret string) {
+	defer res.Recover(c)
+	return runCaseRaw(c, res)
+}
+
+func runCaseRaw(c Case, res *lib.Result) string {
 	switch c.Kind {
 	case "single":
 		return runSingle(c, res)
